@@ -148,6 +148,21 @@ func validFrame(t *rapid.T, di *dialectInfo, o gen.FrameOpts, key *[32]byte) (re
 	if f.V2 && rapid.IntRange(0, 5).Draw(t, "untruncated") == 0 {
 		f.Payload = lay.EncodeFull(val, true) // legal: senders may skip truncation
 	}
+	if f.V2 && rapid.IntRange(0, 9).Draw(t, "sender_has_a_newer_definition") == 0 {
+		// the sender's dialect has extension fields this one does not know yet: bytes behind the last known field,
+		// to be ignored by a receiver
+		if full := lay.EncodeFull(val, true); len(full) < 255 {
+			k := rapid.IntRange(1, minInt(12, 255-len(full))).Draw(t, "unknown_extension_bytes")
+			tail := rapid.SliceOfN(rapid.Byte(), k, k).Draw(t, "unknown_extension")
+			tail[k-1] |= 1
+			f.Payload = append(append([]byte(nil), full...), tail...)
+			f.Checksum = f.ChecksumFor(lay.CRCExtra)
+			if f.Signed() && key != nil {
+				f.Sig = f.SignatureFor(*key)
+			}
+			return f, lay, val
+		}
+	}
 	if rapid.IntRange(0, 4).Draw(t, "dirty_strings") == 0 {
 		// legal as well: whatever a sender left behind the terminator of a string field (the field ends at its
 		// first NUL); such a payload is not the one the library would have produced
@@ -380,4 +395,11 @@ func mustDecode(t *rapid.T, lay *ref.Layout, payload []byte, v2 bool) interface{
 		t.Fatalf("BROKEN: reference cannot decode its own payload: %v", err)
 	}
 	return v
+}
+
+func minInt(a, b int) int {
+	if a < b {
+		return a
+	}
+	return b
 }
